@@ -1,10 +1,11 @@
 #!/bin/bash
-# mutant_batch.sh: runs "<mutant> <property> <runs>" triples, appends results to .work/mutants.tsv
-cd /verif
+# mutant_batch.sh < "<mutant> <property> <runs>" lines : results appended to .work/mutants.tsv
+V=$(cd "$(dirname "$0")/.." && pwd)
+cd $V; mkdir -p .work
 while read m p runs; do
   [ -z "$m" ] && continue
-  out=$(lib/try_mutant.sh /verif/seeded/$m/patch.diff $p --runs $runs 2>&1)
+  out=$(lib/try_mutant.sh $V/seeded/$m/patch.diff $p --runs $runs 2>&1)
   rc=$(echo "$out" | grep -o "check rc=[0-9]*" | tail -1)
   cls=$(echo "$out" | grep "oracle=" | head -1 | sed 's/seed=.*//' | cut -c1-160)
-  echo -e "$m\t$p\t$rc\t$cls" >> .work/mutants.tsv
+  echo -e "$m\t$p\t$rc\t$cls" | tee -a .work/mutants.tsv
 done
